@@ -86,9 +86,21 @@ def run(tier):
         p = vlib.run_vh(["sub-life", str(vlib.seed() * 100 + seed), mode, str(gap), out], timeout=600, env_extra={"VH_THREADS": "4"})
         if p.returncode != 0:
             return job, None, p.stderr[-600:]
-        return job, json.load(open(out)), None
+        d = json.load(open(out))
+        # a scenario that could not be set up on a busy machine (the matcher did not get to the last write in 90 s, the
+        # snapshot did not arrive) is repeated before it is reported as a tool error
+        for attempt in range(2):
+            snap = d.get("attach_after_restart") or {}
+            if not (d.get("timeout") or snap.get("timeout")):
+                break
+            vlib.log("[C13] scenario %s not set up (%s), repeating" % (job, d.get("timeout") or "snapshot timeout"))
+            p = vlib.run_vh(["sub-life", str(vlib.seed() * 100 + seed), mode, str(gap), out], timeout=900, env_extra={"VH_THREADS": "4"})
+            if p.returncode != 0:
+                return job, None, p.stderr[-600:]
+            d = json.load(open(out))
+        return job, d, None
     # one agent per process at a time is required by the process-wide pending-task counter; processes run in parallel
-    with ThreadPoolExecutor(max_workers=6) as ex:
+    with ThreadPoolExecutor(max_workers=4) as ex:
         res = list(ex.map(one, jobs + probes))
     for (job, d, err) in res:
         if d is None:
